@@ -45,6 +45,8 @@ class DropoutCase:
     def __init__(self, spec):
         self.spec = spec
         self.sig = sig_of("Dropout", spec, None)
+        if spec.get("dtype") == "float64":
+            self.tol = 1e-12     # "scaled by exactly 1/(1-p)" at the precision of the input
 
     def run(self, env):
         from synapgrad import nn
@@ -69,7 +71,7 @@ class DropoutCase:
                 (box if act == "E" else m).eval()
                 training = False
             else:
-                x = Tn(env.arr("x%d" % nf, shape), requires_grad=True)
+                x = Tn(env.arr("x%d" % nf, shape, np.dtype(sp.get("dtype", "float32"))), requires_grad=True)
                 y = box(x)
                 tag = "forward %d (%s%s)" % (nf, "train" if training else "eval", ", backward deferred" if defer else "")
                 g = env.arr("g%d" % nf, shape, lo=-2, hi=2)
@@ -255,6 +257,9 @@ def enumerate_specs(tier):
     specs.append({"kind": "dropout", "p": 0.5, "shape": [2, 2], "history": "f"})
     specs.append({"kind": "dropout", "p": 0.3, "shape": [1, 2, 1], "history": "ef"})
     specs.append({"kind": "dropout", "p": 0.875, "shape": [3], "history": "f"})
+    # double-precision inputs and a p whose 1/(1-p) is not exactly representable: the scale must not pass through float32
+    specs.append({"kind": "dropout", "p": 0.1, "shape": [2], "history": "f", "dtype": "float64"})
+    specs.append({"kind": "dropout", "p": 0.3, "shape": [2], "history": "fef", "dtype": "float64"})
     shapes = [(2, 1), (2, 1, 2)] if tier == "quick" else [(2, 1), (2, 2), (3, 1), (2, 1, 2), (2, 1, 1, 2)]
     idx = 0
     for shape in shapes:
